@@ -126,7 +126,8 @@ struct dropper final : sink
 	void incoming_packet(aux::packet p) override
 	{
 		int d = 0;
-		if (p.ok_to_drop() && p.type == aux::packet::type_t::payload && budget > 0 && (only_overhead == 0 || p.overhead == only_overhead))
+		if (p.ok_to_drop() && p.type == aux::packet::type_t::payload && budget > 0 && (only_overhead == 0 || p.overhead == only_overhead)
+			&& (stride <= 1 || (seen++ % stride) == 0))
 		{
 			--budget;
 			d = vp_choose(outcomes);
@@ -140,33 +141,30 @@ struct dropper final : sink
 			if (drop_fun) drop_fun(std::move(p));
 			return;
 		}
-		if (d == 2 && !holding)
+		if (d == 2)
 		{
-			held = std::move(p); holding = true; ++reordered;
+			// held back: released (in order) when the harness flushes at quiescence - a long delay, not a loss
+			held.push_back(std::move(p)); ++reordered;
 			return;
 		}
 		forward_packet(std::move(p));
-		if (holding)
-		{
-			holding = false;
-			forward_packet(std::move(held));
-		}
 	}
-	// release a held packet (called by the harness at quiescence so that nothing is lost forever)
+	// release the held packets (called by the harness at quiescence so that nothing is lost forever)
 	bool flush()
 	{
-		if (!holding) return false;
-		holding = false;
-		forward_packet(std::move(held));
+		if (held.empty()) return false;
+		std::vector<aux::packet> h;
+		h.swap(held);
+		for (auto& p : h) forward_packet(std::move(p));
 		return true;
 	}
 	std::string label() const override { return std::string(); }
 	int budget, outcomes;
 	int dropped = 0, reordered = 0;
+	int stride = 1, seen = 0; // stride n: only every n-th candidate packet gets a decision (faults on non-adjacent packets)
 	int only_overhead = 0; // when set: only packets with this overhead are candidates (40: TCP segments, 28: UDP datagrams)
 	int pattern = 0;      // the decisions taken so far, as base-4 digits (1 pass, 2 drop, 3 hold)
-	bool holding = false;
-	aux::packet held;
+	std::vector<aux::packet> held;
 };
 
 // ---- configuration -------------------------------------------------------
